@@ -441,7 +441,23 @@ func (pc *PartitionContext) removeApplication(appID string) []*objects.Allocatio
 			}
 		}
 	}
+	pc.removeInflightReplacements(allocations)
 	return allocations
+}
+
+// removeInflightReplacements cleans up the real allocations of inflight placeholder replacements. A replacement
+// on a different node than the placeholder is registered on that node only, until the shim confirms the release of
+// the placeholder. When the placeholders are removed with the application that confirmation never comes.
+func (pc *PartitionContext) removeInflightReplacements(allocations []*objects.Allocation) {
+	for _, alloc := range allocations {
+		release := alloc.GetRelease()
+		if !alloc.IsPlaceholder() || release == nil || release.GetNodeID() == alloc.GetNodeID() {
+			continue
+		}
+		if node := pc.GetNode(release.GetNodeID()); node != nil {
+			node.RemoveAllocation(release.GetAllocationKey())
+		}
+	}
 }
 
 // Locked updates of the partition tracking info
